@@ -82,15 +82,29 @@ func findProxy(p *engine.Prog) *proxyRoles {
 			pr.completion, pr.deferIn = body, d
 			for _, ci := range callsIn(body, mSet) {
 				args := ci.Common().Args
-				if u, ok := args[len(args)-1].(*ssa.UnOp); ok {
-					if fv, ok := u.X.(*ssa.FreeVar); ok {
-						for i, f := range body.FreeVars {
-							if f == fv {
-								pr.errCell, _ = mc.Bindings[i].(*ssa.Alloc)
+				// the error handed over is the handler's error variable as it is when the completion runs, possibly
+				// through a local of the completion that is given another value on some paths
+				var find func(v ssa.Value, d int)
+				find = func(v ssa.Value, d int) {
+					if d > 4 {
+						return
+					}
+					switch x := v.(type) {
+					case *ssa.UnOp:
+						if fv, ok := x.X.(*ssa.FreeVar); ok {
+							for i, f := range body.FreeVars {
+								if f == fv && pr.errCell == nil {
+									pr.errCell, _ = mc.Bindings[i].(*ssa.Alloc)
+								}
 							}
+						}
+					case *ssa.Phi:
+						for _, e := range x.Edges {
+							find(e, d+1)
 						}
 					}
 				}
+				find(args[len(args)-1], 0)
 			}
 		}
 	}
@@ -422,6 +436,24 @@ func runC13(p *engine.Prog, r *engine.Report) {
 			}
 			cfi := p.Info(pr.completion)
 			stopped := engine.Not(engine.EqAtom(`""`, stopTerm))
+			// values that can be the error handed to SetScrapeErr (through locals of the completion)
+			argVals := map[ssa.Value]bool{}
+			for _, ci := range callsIn(pr.completion, mSet) {
+				args := ci.Common().Args
+				var walk func(v ssa.Value, d int)
+				walk = func(v ssa.Value, d int) {
+					if d > 4 || argVals[v] {
+						return
+					}
+					argVals[v] = true
+					if ph, ok := v.(*ssa.Phi); ok {
+						for _, e := range ph.Edges {
+							walk(e, d+1)
+						}
+					}
+				}
+				walk(args[len(args)-1], 0)
+			}
 			// a block of the completion, reached only when stopped, that writes a non-200 status and stores an error
 			var blk *ssa.BasicBlock
 			for _, b := range pr.completion.Blocks {
@@ -444,6 +476,10 @@ func runC13(p *engine.Prog, r *engine.Report) {
 								}
 							}
 						}
+					}
+					// or the error is built here and is what SetScrapeErr receives on the paths through this block
+					if call, ok := in.(*ssa.Call); ok && argVals[call] && strings.HasSuffix(call.Type().String(), "error") {
+						hasErr = true
 					}
 				}
 				if hasWH && hasErr {
